@@ -1,5 +1,4 @@
 CONSTANTS
-  Mode = "conc"
   Ns = {0}
   BigQs = {}
   IncMax = 0
